@@ -273,5 +273,894 @@ theorem legalKingMove_iff {T : Tables} (hT : TablesOK T) {b : Board} (hs : Struc
     | false => rfl
     | true => exact absurd ⟨x, hx⟩ h
 
+/-! ### king steps -/
+
+theorem kingOn_kingAt {p : Pos} {k : Sq} (hK : KingAt p p.stm k) (d : Sq) : KingAt (kingOn p k d) p.stm d := by
+  intro s
+  rw [kingOn_board]
+  by_cases hd : s = d
+  · simp [hd]
+  · rw [if_neg hd]
+    by_cases hk : s = k
+    · simp [hk]
+      intro h; exact hd (hk.trans h)
+    · rw [if_neg hk]
+      constructor
+      · intro h; exact absurd ((hK s).mp h) hk
+      · intro h; exact absurd h hd
+
+theorem inCheck_kingOn {p : Pos} {k : Sq} (hK : KingAt p p.stm k) (d : Sq) :
+    inCheck (kingOn p k d) p.stm = attackedBy (kingOn p k d) p.stm.other d := by
+  unfold inCheck
+  rw [kingSq?_of_KingAt (kingOn_kingAt hK d)]
+
+/-- a position whose board is that of `kingOn p k d`: the mover of `p` is in check iff `d` is attacked -/
+theorem inCheck_of_board_kingOn {p q : Pos} {k d : Sq} (hK : KingAt p p.stm k)
+    (hq : q.board = (kingOn p k d).board) :
+    inCheck q p.stm = attackedBy (kingOn p k d) p.stm.other d := by
+  rw [Closure.inCheck_congr hq, inCheck_kingOn hK]
+
+theorem colorAt_own_iff {b : Board} (hs : Struct b) (s : Sq) (c : Color) :
+    b.abs.colorAt s = some c ↔ (b.colorCombined c).getLsbD s.val = true := by
+  rw [colorAt_iff, abs_board]
+  constructor
+  · rintro ⟨pc, h⟩; exact ((hs.content_some_iff s pc c).mp h).2
+  · intro h
+    cases hc : b.content s with
+    | none => have := (bits_of_none hs hc).2 c; simp only [Board.cbit] at this; rw [this] at h; cases h
+    | some v =>
+      obtain ⟨pc, c'⟩ := v
+      have := (bits_of_some hs hc).2 c
+      simp only [Board.cbit] at this
+      rw [h] at this
+      have := of_decide_eq_true this.symm
+      subst this
+      exact ⟨pc, rfl⟩
+
+/-- the board after a king step from `k` to `d` -/
+theorem apply_king_step {p : Pos} {k d : Sq} (hbk : p.board k = some (.king, p.stm))
+    (hnear : (d.file - k.file).natAbs ≤ 1) :
+    (apply p ⟨k, d, none⟩).board = (kingOn p k d).board := by
+  have hc : isCastle p ⟨k, d, none⟩ = false := by
+    unfold isCastle
+    simp only [hbk, Bool.true_and, beq_eq_false_iff_ne, ne_eq]
+    omega
+  have he : isEnPassant p ⟨k, d, none⟩ = false := by
+    unfold isEnPassant
+    simp only [hbk, Bool.false_and]
+  funext t
+  rw [apply_board_plain hc he, kingOn_board]
+  unfold applyMoved
+  simp only [hbk]
+
+/-- **king steps**: for a destination one king step away that holds no man of the mover,
+`legal_king_move` is FIDE legality of the king step -/
+theorem king_step_legal_iff {T : Tables} (hT : TablesOK T) {b : Board} (hs : Struct b) (h1 : OneKing b) (d : Sq)
+    (hstep : (T.king (b.kingSquare b.stm)).getLsbD d.val = true)
+    (hown : (b.colorCombined b.stm).getLsbD d.val = false) :
+    MoveGen.legalKingMove T b d = true ↔ legal b.abs ⟨b.kingSquare b.stm, d, none⟩ = true := by
+  have hK := h1.kingAt hs
+  have hbk := h1.board_king hs
+  rw [hT.king] at hstep
+  have hatt : attacks b.abs (b.kingSquare b.stm) d = true := by
+    unfold attacks
+    simp only [hbk]
+    rw [← mem_king_spec]; exact hstep
+  have hcol : b.abs.colorAt d ≠ some b.stm := by
+    intro h
+    rw [colorAt_own_iff hs, hown] at h; cases h
+  have hpl : pseudoLegal b.abs ⟨b.kingSquare b.stm, d, none⟩ = true := by
+    unfold pseudoLegal
+    simp only [hbk, hatt]
+    have : b.abs.stm = b.stm := rfl
+    simp [this, hcol]
+  have hnear : (d.file - (b.kingSquare b.stm).file).natAbs ≤ 1 := by
+    rw [mem_king] at hstep
+    simp only [Bool.and_eq_true, decide_eq_true_eq] at hstep
+    exact hstep.1.2
+  unfold legal
+  rw [hpl, Bool.true_and, legalKingMove_iff hT hs h1,
+    inCheck_of_board_kingOn (p := b.abs) hK (apply_king_step hbk hnear)]
+  show _ ↔ (!attackedBy (kingOn b.abs (b.kingSquare b.stm) d) b.stm.other d) = true
+  simp
+
+/-! ### the first loop of `KingType::legals`: king steps filtered by `legal_king_move` -/
+
+/-- the king steps that survive `legal_king_move` (the first loop of `KingType::legals` under the mask
+`!mine` that `enumerate_moves` passes) -/
+def kingSteps (T : Tables) (b : Board) : BB :=
+  let moves := MoveGen.pseudoLegals T .king (b.kingSquare b.stm) b.stm b.combined (~~~(b.colorCombined b.stm))
+  moves.toList.foldl (fun mv dest =>
+    if !MoveGen.legalKingMove T b dest then mv ^^^ BB.ofSq dest else mv) moves
+
+/-- the value `moves` that `KingType::legals` pushes (mask `!mine`) -/
+def destsKing (T : Tables) (b : Board) (inCheck : Bool) : BB :=
+  let ksq := b.kingSquare b.stm
+  let moves := kingSteps T b
+  if !inCheck then
+    let moves :=
+      if b.myCastleRights.ks && (b.combined &&& T.ksCastle b.stm) == 0#64 then
+        let middle := ksq.uright
+        let right := middle.uright
+        if MoveGen.legalKingMove T b middle && MoveGen.legalKingMove T b right then moves ^^^ BB.ofSq right else moves
+      else moves
+    if b.myCastleRights.qs && (b.combined &&& T.qsCastle b.stm) == 0#64 then
+      let middle := ksq.uleft
+      let left := middle.uleft
+      if MoveGen.legalKingMove T b middle && MoveGen.legalKingMove T b left then moves ^^^ BB.ofSq left else moves
+    else moves
+  else moves
+
+/-- `KingType::legals` pushes the single entry `(ksq, destsKing)` (if it is not empty) -/
+theorem legalsKing_eq (T : Tables) (ic : Bool) (l : List Entry) (b : Board) :
+    MoveGen.legalsKing T ic l b (~~~(b.colorCombined b.stm)) =
+      MoveGen.pushIf l ⟨b.kingSquare b.stm, destsKing T b ic, false⟩ := rfl
+
+/-- a loop that xors away the squares satisfying `c`, over a duplicate-free list -/
+theorem foldl_clear (c : Sq → Bool) : ∀ (l : List Sq) (init : BB) (s : Sq), l.Nodup →
+    (l.foldl (fun mv dest => if c dest then mv ^^^ BB.ofSq dest else mv) init).getLsbD s.val =
+      (if s ∈ l ∧ c s = true then !init.getLsbD s.val else init.getLsbD s.val) := by
+  intro l
+  induction l with
+  | nil => intro init s _; simp
+  | cons a as ih =>
+    intro init s hnd
+    rw [List.nodup_cons] at hnd
+    rw [List.foldl_cons, ih _ s hnd.2]
+    by_cases hsa : s = a
+    · subst hsa
+      have : ¬ (s ∈ as ∧ c s = true) := fun h => hnd.1 h.1
+      rw [if_neg this]
+      by_cases hc : c s = true
+      · rw [if_pos hc, getLsbD_xor_ofSq, if_pos rfl, if_pos ⟨List.mem_cons_self, hc⟩]
+      · rw [if_neg hc, if_neg (fun h => hc h.2)]
+    · have hv : s.val ≠ a.val := fun h => hsa (Fin.ext h)
+      have e : (if c a = true then init ^^^ BB.ofSq a else init).getLsbD s.val = init.getLsbD s.val := by
+        split
+        · rw [getLsbD_xor_ofSq, if_neg hv]
+        · rfl
+      rw [e]
+      simp [hsa]
+
+theorem toList_nodup (x : BB) : x.toList.Nodup := by
+  rw [BB.toList_exact]
+  exact allSq_nodup.sublist List.filter_sublist
+
+theorem mem_toList (x : BB) (s : Sq) : s ∈ x.toList ↔ x.getLsbD s.val = true := by
+  rw [BB.toList_exact, List.mem_filter]
+  exact ⟨fun h => h.2, fun h => ⟨mem_allSq s, h⟩⟩
+
+/-- a king-step destination that survives: in the king pattern, not an own man, and `legal_king_move` -/
+theorem mem_kingSteps {T : Tables} (b : Board) (d : Sq) :
+    (kingSteps T b).getLsbD d.val =
+      ((T.king (b.kingSquare b.stm)).getLsbD d.val && !(b.colorCombined b.stm).getLsbD d.val &&
+        MoveGen.legalKingMove T b d) := by
+  unfold kingSteps
+  simp only []
+  rw [foldl_clear (fun dest => !MoveGen.legalKingMove T b dest) _ _ d (toList_nodup _)]
+  simp only [mem_toList]
+  unfold MoveGen.pseudoLegals
+  simp only [BitVec.getLsbD_and, BitVec.getLsbD_not, d.isLt, decide_true, Bool.true_and]
+  cases (T.king (b.kingSquare b.stm)).getLsbD d.val <;> cases (b.colorCombined b.stm).getLsbD d.val <;>
+    cases MoveGen.legalKingMove T b d <;> simp
+
+/-! ### comparing attacks in two positions -/
+
+theorem attackedBy_iff (p : Pos) (c : Color) (t : Sq) :
+    attackedBy p c t = true ↔ ∃ x, p.colorAt x = some c ∧ attacks p x t = true := by
+  unfold attackedBy
+  rw [allSq_any]
+  simp only [Bool.and_eq_true, beq_iff_eq]
+
+theorem colorAt_congr {q q' : Pos} {x : Sq} (h : q'.board x = q.board x) : q'.colorAt x = q.colorAt x := by
+  unfold Pos.colorAt; rw [h]
+
+/-- every attack on `t` in `q` is an attack on `t` in `q'` when the attacker stands unchanged and every
+square of its path that is empty in `q` is empty in `q'` -/
+theorem attackedBy_mono {q q' : Pos} {c : Color} {t : Sq}
+    (h : ∀ x, q.colorAt x = some c → attacks q x t = true →
+      q'.board x = q.board x ∧ ∀ z, strictlyBetween x z t = true → q.empty z = true → q'.empty z = true)
+    (ha : attackedBy q c t = true) : attackedBy q' c t = true := by
+  rw [attackedBy_iff] at ha ⊢
+  obtain ⟨x, hx, hatt⟩ := ha
+  obtain ⟨hb, hp⟩ := h x hx hatt
+  refine ⟨x, by rw [colorAt_congr hb, hx], ?_⟩
+  rw [attacks_eq] at hatt ⊢
+  rw [hb]
+  simp only [Bool.or_eq_true, Bool.and_eq_true, pathClear_iff] at hatt ⊢
+  rcases hatt with ⟨h1, h2⟩ | h3
+  · exact Or.inl ⟨h1, fun z hz => hp z hz (h2 z hz)⟩
+  · exact Or.inr h3
+
+theorem kingOn_empty (p : Pos) (k d z : Sq) :
+    (kingOn p k d).empty z = true ↔ z ≠ d ∧ (z = k ∨ p.empty z = true) := by
+  unfold Pos.empty
+  rw [kingOn_board]
+  by_cases hd : z = d
+  · simp [hd]
+  · by_cases hk : z = k
+    · simp [hk]
+    · simp [hd, hk]
+
+theorem enemy_ne_king {p : Pos} {k x : Sq} (hK : KingAt p p.stm k) (hx : p.colorAt x = some p.stm.other) : x ≠ k := by
+  intro h
+  rw [h, colorAt_of_board ((hK k).mpr rfl)] at hx
+  exact Color.other_ne p.stm (Option.some.inj hx).symm
+
+/-- (a) an attack on an empty square `d` persists when the king is lifted and put on `d` -/
+theorem attackedBy_kingOn_of {p : Pos} {k d : Sq} (hK : KingAt p p.stm k) (hd : p.board d = none)
+    (ha : attackedBy p p.stm.other d = true) : attackedBy (kingOn p k d) p.stm.other d = true := by
+  refine attackedBy_mono ?_ ha
+  intro x hx _
+  have hxk := enemy_ne_king hK hx
+  have hxd : x ≠ d := by
+    intro h; rw [h] at hx; unfold Pos.colorAt at hx; rw [hd] at hx; cases hx
+  refine ⟨by rw [kingOn_board, if_neg hxd, if_neg hxk], ?_⟩
+  intro z hz he
+  rw [kingOn_empty]
+  exact ⟨strictlyBetween_ne_right hz, Or.inr he⟩
+
+theorem sliderAligned_between {bd : Option (Piece × Color)} {x k d : Sq} (h : sliderAligned bd x d = true)
+    (hb : strictlyBetween x k d = true) : sliderAligned bd x k = true := by
+  unfold sliderAligned at h ⊢
+  rcases bd with _ | ⟨pc, c⟩
+  · cases h
+  · cases pc <;> simp only at h ⊢ <;> first | exact (strictlyBetween_aligned_ds hb h).1 | cases h
+
+/-- (b) with the king not in check, lifting it opens no new attack: an attack on `d` with the king lifted
+and standing on `d` is an attack on `d` in the position itself -/
+theorem attackedBy_of_kingOn {p : Pos} {k d : Sq} (hK : KingAt p p.stm k)
+    (hnc : attackedBy p p.stm.other k = false)
+    (ha : attackedBy (kingOn p k d) p.stm.other d = true) : attackedBy p p.stm.other d = true := by
+  refine attackedBy_mono ?_ ha
+  intro x hx hatt
+  rw [kingOn_colorAt] at hx
+  have hxd : x ≠ d := by
+    intro h; rw [if_pos h] at hx; exact Color.other_ne p.stm (Option.some.inj hx).symm
+  rw [if_neg hxd] at hx
+  have hxk : x ≠ k := by
+    intro h; rw [if_pos h] at hx; cases hx
+  rw [if_neg hxk] at hx
+  have hbx : (kingOn p k d).board x = p.board x := by rw [kingOn_board, if_neg hxd, if_neg hxk]
+  refine ⟨hbx.symm, ?_⟩
+  intro z hz he
+  rw [kingOn_empty] at he
+  rcases he.2 with hzk | he
+  · exfalso
+    subst hzk
+    -- the king is strictly between the attacker and `d`: the attacker is a slider giving check
+    rw [attacks_eq, hbx] at hatt
+    simp only [Bool.or_eq_true, Bool.and_eq_true, pathClear_iff] at hatt
+    rcases hatt with ⟨h1, h2⟩ | h3
+    · have : attackedBy p p.stm.other z = true := by
+        rw [attackedBy_iff]
+        refine ⟨x, hx, ?_⟩
+        rw [attacks_eq]
+        simp only [Bool.or_eq_true, Bool.and_eq_true, pathClear_iff]
+        refine Or.inl ⟨sliderAligned_between h1 hz, ?_⟩
+        intro w hw
+        have hwd := strictlyBetween_trans hz hw
+        rcases ((kingOn_empty p z d w).mp (h2 w hwd)).2 with h | h
+        · exact absurd h (strictlyBetween_ne_right hw)
+        · exact h
+      rw [hnc] at this; cases this
+    · exact leaper_no_between h3 hz
+  · exact he
+
+
+/-! ### the castling squares -/
+
+/-- the square on file `f` of the home rank of `c` -/
+abbrev hsq (c : Color) (f : Fin 8) : Sq := mkSq c.backrank f
+
+theorem uright_hsq (c : Color) : (hsq c 4).uright = hsq c 5 ∧ (hsq c 5).uright = hsq c 6 ∧
+    (hsq c 4).uleft = hsq c 3 ∧ (hsq c 3).uleft = hsq c 2 := by cases c <;> decide
+
+theorem between_ks (c : Color) : ∀ z : Sq, strictlyBetween (hsq c 4) z (hsq c 7) = (z == hsq c 5 || z == hsq c 6) := by
+  cases c <;> decide
+theorem between_qs (c : Color) : ∀ z : Sq, strictlyBetween (hsq c 4) z (hsq c 0) = (z == hsq c 1 || z == hsq c 2 || z == hsq c 3) := by
+  cases c <;> decide
+theorem no_between_h (c : Color) : ∀ x : Sq, strictlyBetween x (hsq c 7) (hsq c 6) = false := by
+  cases c <;> decide
+theorem no_between_a (c : Color) : ∀ x : Sq, strictlyBetween x (hsq c 0) (hsq c 2) = false := by
+  cases c <;> decide
+theorem ksCastle_eq (c : Color) : Geom.ksCastle c = BB.ofSq (hsq c 5) ||| BB.ofSq (hsq c 6) := by
+  cases c <;> decide +kernel
+theorem qsCastle_eq (c : Color) : Geom.qsCastle c = BB.ofSq (hsq c 1) ||| BB.ofSq (hsq c 2) ||| BB.ofSq (hsq c 3) := by
+  cases c <;> decide +kernel
+theorem sq?_home (c : Color) (f : Fin 8) : sq? (f.val : Int) c.homeRank = some (hsq c f) := by
+  revert f; cases c <;> decide
+
+/-- (c) the position after castling (king `k → t`, rook `r → m`): if the rook's home square `r` is never
+strictly between a square and `t`, every attack on `t` is an attack on `t` with the king merely lifted
+and put on `t` (rook still at home) -/
+theorem attackedBy_kingOn_of_castled {p q : Pos} {k t r m : Sq}
+    (hq : ∀ s, q.board s = if s = t then some (.king, p.stm) else if s = k then none else if s = r then none
+      else if s = m then some (.rook, p.stm) else p.board s)
+    (hr : ∀ x, strictlyBetween x r t = false)
+    (ha : attackedBy q p.stm.other t = true) : attackedBy (kingOn p k t) p.stm.other t = true := by
+  refine attackedBy_mono ?_ ha
+  intro x hx _
+  unfold Pos.colorAt at hx
+  rw [hq] at hx
+  have hxt : x ≠ t := by
+    intro h; rw [if_pos h] at hx; exact Color.other_ne p.stm (Option.some.inj hx).symm
+  rw [if_neg hxt] at hx
+  have hxk : x ≠ k := by
+    intro h; rw [if_pos h] at hx; cases hx
+  rw [if_neg hxk] at hx
+  have hxr : x ≠ r := by
+    intro h; rw [if_pos h] at hx; cases hx
+  rw [if_neg hxr] at hx
+  have hxm : x ≠ m := by
+    intro h; rw [if_pos h] at hx; exact Color.other_ne p.stm (Option.some.inj hx).symm
+  refine ⟨by rw [kingOn_board, hq, if_neg hxt, if_neg hxk, if_neg hxt, if_neg hxk, if_neg hxr, if_neg hxm], ?_⟩
+  intro z hz he
+  rw [kingOn_empty]
+  refine ⟨strictlyBetween_ne_right hz, ?_⟩
+  by_cases hzk : z = k
+  · exact Or.inl hzk
+  · right
+    have hzt := strictlyBetween_ne_right hz
+    have hzr : z ≠ r := by
+      intro h; rw [h, hr] at hz; cases hz
+    unfold Pos.empty at he ⊢
+    rw [hq, if_neg hzt, if_neg hzk, if_neg hzr] at he
+    by_cases hzm : z = m
+    · rw [if_pos hzm] at he; cases he
+    · rw [if_neg hzm] at he; exact he
+
+/-! ### the castling disjunct of `pseudoLegal` -/
+
+/-- the castling disjunct of `pseudoLegal` for a king move `k → d` (Article 3.8.2) -/
+def castleCond (p : Pos) (k d : Sq) : Bool :=
+  let c := p.stm
+  let df := d.file - k.file; let dr := d.rank - k.rank
+  (k.rank == c.homeRank && k.file == 4 && dr == 0 && df.natAbs == 2 &&
+    let kingside := df == 2
+    let rookFile : Int := if kingside then 7 else 0
+    (if kingside then p.castleK c else p.castleQ c) &&
+    (match sq? rookFile c.homeRank, sq? (4 + df / 2) c.homeRank with
+     | some r, some mid =>
+        p.has r .rook c && pathClear p k r &&
+        !attackedBy p c.other k && !attackedBy p c.other mid && !attackedBy p c.other d
+     | _, _ => false))
+
+theorem pseudoLegal_king_eq {p : Pos} {k : Sq} (hbk : p.board k = some (.king, p.stm)) (d : Sq) :
+    pseudoLegal p ⟨k, d, none⟩ = (p.colorAt d != some p.stm && (attacks p k d || castleCond p k d)) := by
+  unfold pseudoLegal castleCond
+  simp only [hbk, beq_self_eq_true, Bool.true_and, Option.isNone_none]
+  rfl
+
+theorem castleCond_ks (p : Pos) :
+    castleCond p (hsq p.stm 4) (hsq p.stm 6) =
+      (p.castleK p.stm && (p.has (hsq p.stm 7) .rook p.stm && pathClear p (hsq p.stm 4) (hsq p.stm 7) &&
+        !attackedBy p p.stm.other (hsq p.stm 4) && !attackedBy p p.stm.other (hsq p.stm 5) &&
+        !attackedBy p p.stm.other (hsq p.stm 6))) := by
+  unfold castleCond
+  have f6 : (hsq p.stm 6).file = 6 := by rw [Sq.file_mkSq]; rfl
+  have f4 : (hsq p.stm 4).file = 4 := by rw [Sq.file_mkSq]; rfl
+  have r6 : (hsq p.stm 6).rank = p.stm.homeRank := by rw [Sq.rank_mkSq, backrank_val]
+  have r4 : (hsq p.stm 4).rank = p.stm.homeRank := by rw [Sq.rank_mkSq, backrank_val]
+  have e5 : sq? 7 p.stm.homeRank = some (hsq p.stm 7) := sq?_home p.stm 7
+  have e6 : sq? 5 p.stm.homeRank = some (hsq p.stm 5) := sq?_home p.stm 5
+  simp only [f6, f4, r6, r4, Int.sub_self, Int.reduceSub, Int.reduceAdd, Int.reduceDiv, Int.reduceAbs,
+    beq_self_eq_true, Bool.true_and, if_true, e5, e6]
+
+theorem castleCond_qs (p : Pos) :
+    castleCond p (hsq p.stm 4) (hsq p.stm 2) =
+      (p.castleQ p.stm && (p.has (hsq p.stm 0) .rook p.stm && pathClear p (hsq p.stm 4) (hsq p.stm 0) &&
+        !attackedBy p p.stm.other (hsq p.stm 4) && !attackedBy p p.stm.other (hsq p.stm 3) &&
+        !attackedBy p p.stm.other (hsq p.stm 2))) := by
+  unfold castleCond
+  have f2 : (hsq p.stm 2).file = 2 := by rw [Sq.file_mkSq]; rfl
+  have f4 : (hsq p.stm 4).file = 4 := by rw [Sq.file_mkSq]; rfl
+  have r2 : (hsq p.stm 2).rank = p.stm.homeRank := by rw [Sq.rank_mkSq, backrank_val]
+  have r4 : (hsq p.stm 4).rank = p.stm.homeRank := by rw [Sq.rank_mkSq, backrank_val]
+  have e5 : sq? 0 p.stm.homeRank = some (hsq p.stm 0) := sq?_home p.stm 0
+  have e6 : sq? 3 p.stm.homeRank = some (hsq p.stm 3) := sq?_home p.stm 3
+  have e7 : ((2 : Int) - 4 == 2) = false := by decide
+  have e8 : ((2 : Int) - 4).natAbs = 2 := by decide
+  have e9 : (4 : Int) + (2 - 4) / 2 = 3 := by decide
+  simp only [f2, f4, r2, r4, Int.sub_self, e7, e8, e9,
+    beq_self_eq_true, Bool.true_and, e5, e6, Bool.false_eq_true, if_false]
+
+/-! ### castling: the core argument on the specification -/
+
+theorem inCheck_eq {p : Pos} {k : Sq} (hK : KingAt p p.stm k) :
+    inCheck p p.stm = attackedBy p p.stm.other k := by
+  unfold inCheck; rw [kingSq?_of_KingAt hK]
+
+theorem colorAt_of_none {p : Pos} {s : Sq} (h : p.board s = none) (c : Color) : (p.colorAt s != some c) = true := by
+  unfold Pos.colorAt; rw [h]; rfl
+
+/-- the core of the castling argument, on the specification alone: king `k → t`, rook `r → m` -/
+theorem castle_core {p : Pos} {k t r m : Sq} {right : Bool} (hK : KingAt p p.stm k)
+    (hcc : castleCond p k t = (right && (p.has r .rook p.stm && pathClear p k r &&
+      !attackedBy p p.stm.other k && !attackedBy p p.stm.other m && !attackedBy p p.stm.other t)))
+    (hnear : attacks p k t = false)
+    (hm : pathClear p k r = true → p.board m = none) (ht : pathClear p k r = true → p.board t = none)
+    (happly : ∀ s, (apply p ⟨k, t, none⟩).board s = if s = t then some (.king, p.stm) else if s = k then none
+      else if s = r then none else if s = m then some (.rook, p.stm) else p.board s)
+    (hr : ∀ x, strictlyBetween x r t = false) (hmt : m ≠ t) :
+    legal p ⟨k, t, none⟩ = true ↔
+      (right = true ∧ p.has r .rook p.stm = true ∧ pathClear p k r = true ∧
+        attackedBy p p.stm.other k = false ∧
+        attackedBy (kingOn p k m) p.stm.other m = false ∧
+        attackedBy (kingOn p k t) p.stm.other t = false) := by
+  have hbk : p.board k = some (.king, p.stm) := (hK k).mpr rfl
+  unfold legal
+  rw [pseudoLegal_king_eq hbk, hnear, Bool.false_or, hcc]
+  constructor
+  · intro h
+    simp only [Bool.and_eq_true, Bool.not_eq_true', bne_iff_ne, ne_eq] at h
+    obtain ⟨⟨_, h1, ⟨⟨⟨h2, h3⟩, h4⟩, h5⟩, h6⟩, _⟩ := h
+    refine ⟨h1, h2, h3, h4, ?_, ?_⟩
+    · cases hh : attackedBy (kingOn p k m) p.stm.other m with
+      | false => rfl
+      | true => rw [attackedBy_of_kingOn hK h4 hh] at h5; cases h5
+    · cases hh : attackedBy (kingOn p k t) p.stm.other t with
+      | false => rfl
+      | true => rw [attackedBy_of_kingOn hK h4 hh] at h6; cases h6
+  · rintro ⟨h1, h2, h3, h4, h5, h6⟩
+    have h5' : attackedBy p p.stm.other m = false := by
+      cases hh : attackedBy p p.stm.other m with
+      | false => rfl
+      | true => rw [attackedBy_kingOn_of hK (hm h3) hh] at h5; cases h5
+    have h6' : attackedBy p p.stm.other t = false := by
+      cases hh : attackedBy p p.stm.other t with
+      | false => rfl
+      | true => rw [attackedBy_kingOn_of hK (ht h3) hh] at h6; cases h6
+    have hK' : KingAt (apply p ⟨k, t, none⟩) p.stm t := by
+      intro s
+      rw [happly]
+      by_cases e1 : s = t
+      · simp [e1]
+      · rw [if_neg e1]
+        by_cases e2 : s = k
+        · simp [e2]; intro h; exact e1 (e2.trans h)
+        · rw [if_neg e2]
+          by_cases e3 : s = r
+          · simp [e3]; intro h; exact e1 (e3.trans h)
+          · rw [if_neg e3]
+            by_cases e4 : s = m
+            · simp [e4, hmt]
+            · rw [if_neg e4]
+              constructor
+              · intro h; exact absurd ((hK s).mp h) e2
+              · intro h; exact absurd h e1
+    have hafter : inCheck (apply p ⟨k, t, none⟩) p.stm = false := by
+      have e : inCheck (apply p ⟨k, t, none⟩) p.stm = attackedBy (apply p ⟨k, t, none⟩) p.stm.other t := by
+        unfold inCheck; rw [kingSq?_of_KingAt hK']
+      rw [e]
+      cases hh : attackedBy (apply p ⟨k, t, none⟩) p.stm.other t with
+      | false => rfl
+      | true => rw [attackedBy_kingOn_of_castled happly hr hh] at h6; cases h6
+    rw [colorAt_of_none (ht h3), h1, h2, h3, h4, h5', h6', hafter]
+    rfl
+
+/-! ### castling on the board -/
+
+theorem hsq_file (c : Color) (f : Fin 8) : (hsq c f).file = (f.val : Int) := Sq.file_mkSq _ _
+theorem hsq_rank (c : Color) (f : Fin 8) : (hsq c f).rank = c.homeRank := by rw [Sq.rank_mkSq, backrank_val]
+
+theorem hsq_inj (c : Color) {f g : Fin 8} (h : hsq c f = hsq c g) : f = g := mkSq_inj_file _ h
+
+/-- the board after castling kingside -/
+theorem apply_castle_ks {p : Pos} (hbk : p.board (hsq p.stm 4) = some (.king, p.stm)) (s : Sq) :
+    (apply p ⟨hsq p.stm 4, hsq p.stm 6, none⟩).board s =
+      if s = hsq p.stm 6 then some (.king, p.stm) else if s = hsq p.stm 4 then none
+      else if s = hsq p.stm 7 then none else if s = hsq p.stm 5 then some (.rook, p.stm) else p.board s := by
+  have hc : isCastle p ⟨hsq p.stm 4, hsq p.stm 6, none⟩ = true := by
+    unfold isCastle
+    simp only [hbk, hsq_file]
+    decide
+  have he : isEnPassant p ⟨hsq p.stm 4, hsq p.stm 6, none⟩ = false := by
+    unfold isEnPassant
+    simp only [hbk, Bool.false_and]
+  have h7 : homeSq p.stm (if (hsq p.stm 6).file > (hsq p.stm 4).file then 7 else 0) = some (hsq p.stm 7) := by
+    rw [hsq_file, hsq_file, if_pos (by decide)]; exact homeSq_7 p.stm
+  have h5 : homeSq p.stm (if (hsq p.stm 6).file > (hsq p.stm 4).file then 5 else 3) = some (hsq p.stm 5) := by
+    rw [hsq_file, hsq_file, if_pos (by decide)]; exact homeSq_eq p.stm 5
+  rw [apply_board_castle hc he h7 h5]
+  unfold applyMoved
+  simp only [hbk]
+
+/-- the board after castling queenside -/
+theorem apply_castle_qs {p : Pos} (hbk : p.board (hsq p.stm 4) = some (.king, p.stm)) (s : Sq) :
+    (apply p ⟨hsq p.stm 4, hsq p.stm 2, none⟩).board s =
+      if s = hsq p.stm 2 then some (.king, p.stm) else if s = hsq p.stm 4 then none
+      else if s = hsq p.stm 0 then none else if s = hsq p.stm 3 then some (.rook, p.stm) else p.board s := by
+  have hc : isCastle p ⟨hsq p.stm 4, hsq p.stm 2, none⟩ = true := by
+    unfold isCastle
+    simp only [hbk, hsq_file]
+    decide
+  have he : isEnPassant p ⟨hsq p.stm 4, hsq p.stm 2, none⟩ = false := by
+    unfold isEnPassant
+    simp only [hbk, Bool.false_and]
+  have h0 : homeSq p.stm (if (hsq p.stm 2).file > (hsq p.stm 4).file then 7 else 0) = some (hsq p.stm 0) := by
+    rw [hsq_file, hsq_file, if_neg (by decide)]; exact homeSq_0 p.stm
+  have h3 : homeSq p.stm (if (hsq p.stm 2).file > (hsq p.stm 4).file then 5 else 3) = some (hsq p.stm 3) := by
+    rw [hsq_file, hsq_file, if_neg (by decide)]; exact homeSq_eq p.stm 3
+  rw [apply_board_castle hc he h0 h3]
+  unfold applyMoved
+  simp only [hbk]
+
+theorem king_not_two_files {p : Pos} {k t : Sq} (hbk : p.board k = some (.king, p.stm))
+    (h : 2 ≤ (t.file - k.file).natAbs) : attacks p k t = false := by
+  cases ha : attacks p k t with
+  | false => rfl
+  | true => have := (king_attacks_near hbk ha).1; omega
+
+theorem empty_of_board {p : Pos} {s : Sq} : p.empty s = true ↔ p.board s = none := PinCheck.empty_iff p s
+
+theorem pathClear_ks (p : Pos) (c : Color) :
+    pathClear p (hsq c 4) (hsq c 7) = true ↔ p.board (hsq c 5) = none ∧ p.board (hsq c 6) = none := by
+  rw [pathClear_iff]
+  simp only [between_ks, Bool.or_eq_true, beq_iff_eq, empty_of_board]
+  constructor
+  · intro h; exact ⟨h _ (Or.inl rfl), h _ (Or.inr rfl)⟩
+  · rintro ⟨h1, h2⟩ z (rfl | rfl) <;> assumption
+
+theorem pathClear_qs (p : Pos) (c : Color) :
+    pathClear p (hsq c 4) (hsq c 0) = true ↔
+      p.board (hsq c 1) = none ∧ p.board (hsq c 2) = none ∧ p.board (hsq c 3) = none := by
+  rw [pathClear_iff]
+  simp only [between_qs, Bool.or_eq_true, beq_iff_eq, empty_of_board]
+  constructor
+  · intro h; exact ⟨h _ (Or.inl (Or.inl rfl)), h _ (Or.inl (Or.inr rfl)), h _ (Or.inr rfl)⟩
+  · rintro ⟨h1, h2, h3⟩ z ((rfl | rfl) | rfl) <;> assumption
+
+theorem board_none_iff {b : Board} (hs : Struct b) (s : Sq) :
+    b.abs.board s = none ↔ b.combined.getLsbD s.val = false := by
+  rw [abs_board, hs.content_none_iff]
+
+theorem and_ofSq_or_eq_zero (x : BB) (a c : Sq) :
+    x &&& (BB.ofSq a ||| BB.ofSq c) = 0#64 ↔ x.getLsbD a.val = false ∧ x.getLsbD c.val = false := by
+  rw [BB.eq_zero_iff]
+  simp only [BitVec.getLsbD_and, BitVec.getLsbD_or, BB.has_ofSq]
+  constructor
+  · intro h
+    exact ⟨by simpa using h a, by simpa using h c⟩
+  · rintro ⟨h1, h2⟩ z
+    by_cases e1 : z = a
+    · subst e1; rw [h1, Bool.false_and]
+    · by_cases e2 : z = c
+      · subst e2; rw [h2, Bool.false_and]
+      · simp [e1, e2]
+
+theorem ksCastle_empty {T : Tables} (hT : TablesOK T) {b : Board} (hs : Struct b) :
+    b.combined &&& T.ksCastle b.stm = 0#64 ↔
+      b.abs.board (hsq b.stm 5) = none ∧ b.abs.board (hsq b.stm 6) = none := by
+  rw [hT.ksCastle, ksCastle_eq, and_ofSq_or_eq_zero, board_none_iff hs, board_none_iff hs]
+
+theorem and_ofSq_or3_eq_zero (x : BB) (a c e : Sq) :
+    x &&& (BB.ofSq a ||| BB.ofSq c ||| BB.ofSq e) = 0#64 ↔
+      x.getLsbD a.val = false ∧ x.getLsbD c.val = false ∧ x.getLsbD e.val = false := by
+  rw [BB.eq_zero_iff]
+  simp only [BitVec.getLsbD_and, BitVec.getLsbD_or, BB.has_ofSq]
+  constructor
+  · intro h
+    exact ⟨by simpa using h a, by simpa using h c, by simpa using h e⟩
+  · rintro ⟨h1, h2, h3⟩ z
+    by_cases e1 : z = a
+    · subst e1; rw [h1, Bool.false_and]
+    · by_cases e2 : z = c
+      · subst e2; rw [h2, Bool.false_and]
+      · by_cases e3 : z = e
+        · subst e3; rw [h3, Bool.false_and]
+        · simp [e1, e2, e3]
+
+theorem qsCastle_empty {T : Tables} (hT : TablesOK T) {b : Board} (hs : Struct b) :
+    b.combined &&& T.qsCastle b.stm = 0#64 ↔
+      b.abs.board (hsq b.stm 1) = none ∧ b.abs.board (hsq b.stm 2) = none ∧ b.abs.board (hsq b.stm 3) = none := by
+  rw [hT.qsCastle, qsCastle_eq, and_ofSq_or3_eq_zero, board_none_iff hs, board_none_iff hs, board_none_iff hs]
+
+theorem castleCond_src {p : Pos} {k d : Sq} (h : castleCond p k d = true) : k = hsq p.stm 4 := by
+  unfold castleCond at h
+  simp only [Bool.and_eq_true, beq_iff_eq] at h
+  obtain ⟨⟨⟨⟨h1, h2⟩, _⟩, _⟩, _⟩ := h
+  exact Sq.ext_coord (by rw [hsq_file, h2]; rfl) (by rw [hsq_rank, h1])
+
+theorem castleCond_dst {p : Pos} {k d : Sq} (h : castleCond p k d = true) :
+    d = hsq p.stm 6 ∨ d = hsq p.stm 2 := by
+  unfold castleCond at h
+  simp only [Bool.and_eq_true, beq_iff_eq] at h
+  obtain ⟨⟨⟨⟨h1, h2⟩, h3⟩, h4⟩, _⟩ := h
+  have hd := Sq.coord_bounds d
+  rcases (by omega : d.file = 6 ∨ d.file = 2) with h6 | h6
+  · exact Or.inl (Sq.ext_coord (by rw [hsq_file, h6]; rfl) (by rw [hsq_rank]; omega))
+  · exact Or.inr (Sq.ext_coord (by rw [hsq_file, h6]; rfl) (by rw [hsq_rank]; omega))
+
+theorem two_right : ∀ k : Sq, 2 ≤ (k.uright.uright.file - k.file).natAbs := by decide
+theorem two_left : ∀ k : Sq, 2 ≤ (k.uleft.uleft.file - k.file).natAbs := by decide
+
+theorem legalKingMove_false_iff {T : Tables} (hT : TablesOK T) {b : Board} (hs : Struct b) (h1 : OneKing b) (d : Sq) :
+    attackedBy (kingOn b.abs (b.kingSquare b.stm) d) b.stm.other d = false ↔ MoveGen.legalKingMove T b d = true :=
+  (legalKingMove_iff hT hs h1 d).symm
+
+/-- **castling kingside**: the code's test (right present, `f` and `g` empty, transit and target squares
+pass `legal_king_move`, not in check) is FIDE legality of `O-O`, provided the right is backed by the king
+and the rook on their home squares -/
+theorem castle_kingside_iff {T : Tables} (hT : TablesOK T) {b : Board} (hs : Struct b) (h1 : OneKing b)
+    (hback : b.myCastleRights.ks = true →
+      b.kingSquare b.stm = hsq b.stm 4 ∧ b.abs.board (hsq b.stm 7) = some (.rook, b.stm)) :
+    (b.myCastleRights.ks = true ∧ b.combined &&& T.ksCastle b.stm = 0#64 ∧
+      MoveGen.legalKingMove T b (b.kingSquare b.stm).uright = true ∧
+      MoveGen.legalKingMove T b (b.kingSquare b.stm).uright.uright = true ∧
+      inCheck b.abs b.stm = false) ↔
+    legal b.abs ⟨b.kingSquare b.stm, (b.kingSquare b.stm).uright.uright, none⟩ = true := by
+  have hK : KingAt b.abs b.abs.stm (b.kingSquare b.stm) := h1.kingAt hs
+  have hbk : b.abs.board (b.kingSquare b.stm) = some (.king, b.abs.stm) := h1.board_king hs
+  by_cases hke : b.kingSquare b.stm = hsq b.stm 4
+  · have hL := fun d => legalKingMove_false_iff hT hs h1 d
+    rw [hke] at hK hbk hL ⊢
+    rw [(uright_hsq b.stm).1, (uright_hsq b.stm).2.1]
+    have hnear := king_not_two_files (t := hsq b.stm 6) hbk (by rw [hsq_file, hsq_file]; decide)
+    have hcore : legal b.abs ⟨hsq b.stm 4, hsq b.stm 6, none⟩ = true ↔
+        (b.myCastleRights.ks = true ∧ b.abs.has (hsq b.stm 7) .rook b.stm = true ∧
+          pathClear b.abs (hsq b.stm 4) (hsq b.stm 7) = true ∧
+          attackedBy b.abs b.stm.other (hsq b.stm 4) = false ∧
+          attackedBy (kingOn b.abs (hsq b.stm 4) (hsq b.stm 5)) b.stm.other (hsq b.stm 5) = false ∧
+          attackedBy (kingOn b.abs (hsq b.stm 4) (hsq b.stm 6)) b.stm.other (hsq b.stm 6) = false) :=
+      castle_core (right := b.myCastleRights.ks) hK (castleCond_ks b.abs) hnear
+        (fun h => ((pathClear_ks _ _).mp h).1) (fun h => ((pathClear_ks _ _).mp h).2)
+        (apply_castle_ks hbk) (no_between_h _) (fun h => by have := hsq_inj _ h; revert this; decide)
+    have hic : inCheck b.abs b.stm = attackedBy b.abs b.stm.other (hsq b.stm 4) := inCheck_eq hK
+    rw [hcore, hic, ksCastle_empty hT hs, ← pathClear_ks, ← hL, ← hL]
+    constructor
+    · rintro ⟨a1, a2, a3, a4, a5⟩
+      refine ⟨a1, ?_, a2, a5, a3, a4⟩
+      unfold Pos.has; rw [(hback a1).2]; exact beq_self_eq_true _
+    · rintro ⟨a1, _, a2, a5, a3, a4⟩
+      exact ⟨a1, a2, a3, a4, a5⟩
+  · constructor
+    · rintro ⟨a1, _⟩; exact absurd (hback a1).1 hke
+    · intro hl
+      exfalso
+      unfold legal at hl
+      rw [Bool.and_eq_true, pseudoLegal_king_eq hbk, king_not_two_files hbk (two_right _)] at hl
+      simp only [Bool.false_or, Bool.and_eq_true] at hl
+      exact hke (castleCond_src hl.1.2)
+
+/-- **castling queenside**: the code's test (right present, `b`, `c`, `d` empty, transit and target
+squares pass `legal_king_move`, not in check) is FIDE legality of `O-O-O`, provided the right is backed
+by the king and the rook on their home squares.  (The `b`-file square must be empty but may be attacked.) -/
+theorem castle_queenside_iff {T : Tables} (hT : TablesOK T) {b : Board} (hs : Struct b) (h1 : OneKing b)
+    (hback : b.myCastleRights.qs = true →
+      b.kingSquare b.stm = hsq b.stm 4 ∧ b.abs.board (hsq b.stm 0) = some (.rook, b.stm)) :
+    (b.myCastleRights.qs = true ∧ b.combined &&& T.qsCastle b.stm = 0#64 ∧
+      MoveGen.legalKingMove T b (b.kingSquare b.stm).uleft = true ∧
+      MoveGen.legalKingMove T b (b.kingSquare b.stm).uleft.uleft = true ∧
+      inCheck b.abs b.stm = false) ↔
+    legal b.abs ⟨b.kingSquare b.stm, (b.kingSquare b.stm).uleft.uleft, none⟩ = true := by
+  have hK : KingAt b.abs b.abs.stm (b.kingSquare b.stm) := h1.kingAt hs
+  have hbk : b.abs.board (b.kingSquare b.stm) = some (.king, b.abs.stm) := h1.board_king hs
+  by_cases hke : b.kingSquare b.stm = hsq b.stm 4
+  · have hL := fun d => legalKingMove_false_iff hT hs h1 d
+    rw [hke] at hK hbk hL ⊢
+    rw [(uright_hsq b.stm).2.2.1, (uright_hsq b.stm).2.2.2]
+    have hnear := king_not_two_files (t := hsq b.stm 2) hbk (by rw [hsq_file, hsq_file]; decide)
+    have hcore : legal b.abs ⟨hsq b.stm 4, hsq b.stm 2, none⟩ = true ↔
+        (b.myCastleRights.qs = true ∧ b.abs.has (hsq b.stm 0) .rook b.stm = true ∧
+          pathClear b.abs (hsq b.stm 4) (hsq b.stm 0) = true ∧
+          attackedBy b.abs b.stm.other (hsq b.stm 4) = false ∧
+          attackedBy (kingOn b.abs (hsq b.stm 4) (hsq b.stm 3)) b.stm.other (hsq b.stm 3) = false ∧
+          attackedBy (kingOn b.abs (hsq b.stm 4) (hsq b.stm 2)) b.stm.other (hsq b.stm 2) = false) :=
+      castle_core (right := b.myCastleRights.qs) hK (castleCond_qs b.abs) hnear
+        (fun h => ((pathClear_qs _ _).mp h).2.2) (fun h => ((pathClear_qs _ _).mp h).2.1)
+        (apply_castle_qs hbk) (no_between_a _) (fun h => by have := hsq_inj _ h; revert this; decide)
+    have hic : inCheck b.abs b.stm = attackedBy b.abs b.stm.other (hsq b.stm 4) := inCheck_eq hK
+    rw [hcore, hic, qsCastle_empty hT hs, ← pathClear_qs, ← hL, ← hL]
+    constructor
+    · rintro ⟨a1, a2, a3, a4, a5⟩
+      refine ⟨a1, ?_, a2, a5, a3, a4⟩
+      unfold Pos.has; rw [(hback a1).2]; exact beq_self_eq_true _
+    · rintro ⟨a1, _, a2, a5, a3, a4⟩
+      exact ⟨a1, a2, a3, a4, a5⟩
+  · constructor
+    · rintro ⟨a1, _⟩; exact absurd (hback a1).1 hke
+    · intro hl
+      exfalso
+      unfold legal at hl
+      rw [Bool.and_eq_true, pseudoLegal_king_eq hbk, king_not_two_files hbk (two_left _)] at hl
+      simp only [Bool.false_or, Bool.and_eq_true] at hl
+      exact hke (castleCond_src hl.1.2)
+
+/-! ### the destination set of the king -/
+
+theorem ite_xor_bit (c : Bool) (x : BB) (s d : Sq) :
+    (if c = true then x ^^^ BB.ofSq s else x).getLsbD d.val = (x.getLsbD d.val ^^ (c && decide (d = s))) := by
+  cases c
+  · simp
+  · rw [if_pos rfl, BitVec.getLsbD_xor, BB.has_ofSq]; rfl
+
+/-- the code's kingside castling test -/
+def castleKCode (T : Tables) (b : Board) : Bool :=
+  (b.myCastleRights.ks && (b.combined &&& T.ksCastle b.stm) == 0#64) &&
+    (MoveGen.legalKingMove T b (b.kingSquare b.stm).uright &&
+      MoveGen.legalKingMove T b (b.kingSquare b.stm).uright.uright)
+
+/-- the code's queenside castling test -/
+def castleQCode (T : Tables) (b : Board) : Bool :=
+  (b.myCastleRights.qs && (b.combined &&& T.qsCastle b.stm) == 0#64) &&
+    (MoveGen.legalKingMove T b (b.kingSquare b.stm).uleft &&
+      MoveGen.legalKingMove T b (b.kingSquare b.stm).uleft.uleft)
+
+theorem destsKing_true (T : Tables) (b : Board) : destsKing T b true = kingSteps T b := rfl
+
+theorem destsKing_false_bit (T : Tables) (b : Board) (d : Sq) :
+    (destsKing T b false).getLsbD d.val =
+      (((kingSteps T b).getLsbD d.val ^^ (castleKCode T b && decide (d = (b.kingSquare b.stm).uright.uright))) ^^
+        (castleQCode T b && decide (d = (b.kingSquare b.stm).uleft.uleft))) := by
+  rw [← ite_xor_bit, ← ite_xor_bit]
+  unfold destsKing castleKCode castleQCode
+  simp only [Bool.not_false, if_true]
+  cases (b.myCastleRights.ks && (b.combined &&& T.ksCastle b.stm) == 0#64) <;>
+  cases (MoveGen.legalKingMove T b (b.kingSquare b.stm).uright &&
+      MoveGen.legalKingMove T b (b.kingSquare b.stm).uright.uright) <;>
+  cases (b.myCastleRights.qs && (b.combined &&& T.qsCastle b.stm) == 0#64) <;>
+  cases (MoveGen.legalKingMove T b (b.kingSquare b.stm).uleft &&
+      MoveGen.legalKingMove T b (b.kingSquare b.stm).uleft.uleft) <;> rfl
+
+theorem kingSteps_iff {T : Tables} (hT : TablesOK T) {b : Board} (hs : Struct b) (h1 : OneKing b) (d : Sq) :
+    (kingSteps T b).getLsbD d.val = true ↔
+      (T.king (b.kingSquare b.stm)).getLsbD d.val = true ∧
+        legal b.abs ⟨b.kingSquare b.stm, d, none⟩ = true := by
+  rw [mem_kingSteps]
+  simp only [Bool.and_eq_true, Bool.not_eq_true']
+  constructor
+  · rintro ⟨⟨a1, a2⟩, a3⟩
+    exact ⟨a1, (king_step_legal_iff hT hs h1 d a1 a2).mp a3⟩
+  · rintro ⟨a1, a2⟩
+    have hbk : b.abs.board (b.kingSquare b.stm) = some (.king, b.abs.stm) := h1.board_king hs
+    have hown : (b.colorCombined b.stm).getLsbD d.val = false := by
+      have hl := a2
+      unfold legal at hl
+      rw [Bool.and_eq_true, pseudoLegal_king_eq hbk, Bool.and_eq_true, bne_iff_ne] at hl
+      cases hh : (b.colorCombined b.stm).getLsbD d.val with
+      | false => rfl
+      | true => exact absurd ((colorAt_own_iff hs d b.stm).mpr hh) hl.1.1
+    exact ⟨⟨a1, hown⟩, (king_step_legal_iff hT hs h1 d a1 hown).mpr a2⟩
+
+/-- a legal king move is a king step or satisfies the castling clause -/
+theorem legal_king_cases {T : Tables} (hT : TablesOK T) {b : Board} (hs : Struct b) (h1 : OneKing b) {d : Sq}
+    (hl : legal b.abs ⟨b.kingSquare b.stm, d, none⟩ = true) :
+    (T.king (b.kingSquare b.stm)).getLsbD d.val = true ∨ castleCond b.abs (b.kingSquare b.stm) d = true := by
+  have hbk : b.abs.board (b.kingSquare b.stm) = some (.king, b.abs.stm) := h1.board_king hs
+  unfold legal at hl
+  rw [Bool.and_eq_true, pseudoLegal_king_eq hbk, Bool.and_eq_true, Bool.or_eq_true] at hl
+  rcases hl.1.2 with h | h
+  · left
+    unfold attacks at h
+    simp only [hbk] at h
+    rw [hT.king, mem_king_spec]; exact h
+  · exact Or.inr h
+
+theorem not_step_two_right {T : Tables} (hT : TablesOK T) (k : Sq) :
+    (T.king k).getLsbD k.uright.uright.val = false := by
+  rw [hT.king, mem_king]
+  have := two_right k
+  cases h : decide ((k.uright.uright.file - k.file).natAbs ≤ 1) with
+  | false => simp
+  | true => have := of_decide_eq_true h; omega
+
+theorem not_step_two_left {T : Tables} (hT : TablesOK T) (k : Sq) :
+    (T.king k).getLsbD k.uleft.uleft.val = false := by
+  rw [hT.king, mem_king]
+  have := two_left k
+  cases h : decide ((k.uleft.uleft.file - k.file).natAbs ≤ 1) with
+  | false => simp
+  | true => have := of_decide_eq_true h; omega
+
+theorem right_ne_left : ∀ k : Sq, k.uright.uright ≠ k.uleft.uleft := by decide
+
+/-- **the king's destination set is exact**: the bitboard pushed by `KingType::legals` (called with
+`in_check = ic`, where `ic` says whether the mover is in check) has bit `d` iff the king move to `d`
+(step or castling) is legal -/
+theorem destsKing_iff {T : Tables} (hT : TablesOK T) {b : Board} (hs : Struct b) (h1 : OneKing b)
+    (hbackK : b.myCastleRights.ks = true →
+      b.kingSquare b.stm = hsq b.stm 4 ∧ b.abs.board (hsq b.stm 7) = some (.rook, b.stm))
+    (hbackQ : b.myCastleRights.qs = true →
+      b.kingSquare b.stm = hsq b.stm 4 ∧ b.abs.board (hsq b.stm 0) = some (.rook, b.stm))
+    (ic : Bool) (hic : inCheck b.abs b.stm = ic) (d : Sq) :
+    (destsKing T b ic).getLsbD d.val = true ↔ legal b.abs ⟨b.kingSquare b.stm, d, none⟩ = true := by
+  have hK : KingAt b.abs b.abs.stm (b.kingSquare b.stm) := h1.kingAt hs
+  cases ic with
+  | true =>
+    rw [destsKing_true, kingSteps_iff hT hs h1]
+    constructor
+    · exact fun h => h.2
+    · intro hl
+      refine ⟨?_, hl⟩
+      rcases legal_king_cases hT hs h1 hl with h | h
+      · exact h
+      · exfalso
+        unfold castleCond at h
+        simp only [Bool.and_eq_true] at h
+        have hatt : attackedBy b.abs b.stm.other (b.kingSquare b.stm) = false := by
+          obtain ⟨_, _, h3⟩ := h
+          split at h3
+          · simp only [Bool.and_eq_true, Bool.not_eq_true'] at h3
+            exact h3.1.1.2
+          · cases h3
+        have e : inCheck b.abs b.stm = attackedBy b.abs b.stm.other (b.kingSquare b.stm) := inCheck_eq hK
+        rw [e, hatt] at hic; cases hic
+  | false =>
+    have hck : castleKCode T b = true ↔
+        legal b.abs ⟨b.kingSquare b.stm, (b.kingSquare b.stm).uright.uright, none⟩ = true := by
+      rw [← castle_kingside_iff hT hs h1 hbackK]
+      unfold castleKCode
+      simp only [Bool.and_eq_true, beq_iff_eq, hic, and_true, and_assoc]
+    have hcq : castleQCode T b = true ↔
+        legal b.abs ⟨b.kingSquare b.stm, (b.kingSquare b.stm).uleft.uleft, none⟩ = true := by
+      rw [← castle_queenside_iff hT hs h1 hbackQ]
+      unfold castleQCode
+      simp only [Bool.and_eq_true, beq_iff_eq, hic, and_true, and_assoc]
+    rw [destsKing_false_bit]
+    by_cases e1 : d = (b.kingSquare b.stm).uright.uright
+    · subst e1
+      have s0 : (kingSteps T b).getLsbD (b.kingSquare b.stm).uright.uright.val = false := by
+        rw [mem_kingSteps, not_step_two_right hT]; rfl
+      rw [s0, decide_eq_true rfl, decide_eq_false (right_ne_left _), Bool.and_false, Bool.xor_false,
+        Bool.false_xor, Bool.and_true]
+      exact hck
+    · by_cases e2 : d = (b.kingSquare b.stm).uleft.uleft
+      · subst e2
+        have s0 : (kingSteps T b).getLsbD (b.kingSquare b.stm).uleft.uleft.val = false := by
+          rw [mem_kingSteps, not_step_two_left hT]; rfl
+        rw [s0, decide_eq_true rfl, decide_eq_false (Ne.symm (right_ne_left _)), Bool.and_false, Bool.xor_false,
+          Bool.false_xor, Bool.and_true]
+        exact hcq
+      · rw [decide_eq_false e1, decide_eq_false e2, Bool.and_false, Bool.and_false, Bool.xor_false,
+          Bool.xor_false, kingSteps_iff hT hs h1]
+        constructor
+        · exact fun h => h.2
+        · intro hl
+          refine ⟨?_, hl⟩
+          rcases legal_king_cases hT hs h1 hl with h | h
+          · exact h
+          · exfalso
+            have hk := castleCond_src h
+            have hd := castleCond_dst h
+            have hk' : b.kingSquare b.stm = hsq b.stm 4 := hk
+            rw [hk', (uright_hsq b.stm).1, (uright_hsq b.stm).2.1] at e1
+            rw [hk', (uright_hsq b.stm).2.2.1, (uright_hsq b.stm).2.2.2] at e2
+            rcases hd with hd | hd
+            · exact e1 hd
+            · exact e2 hd
+
+
+/-! ### the hypotheses, from `Valid` -/
+
+theorem oneKing_of_valid {b : Board} (hs : Struct b) (hv : Valid b.abs = true) : OneKing b := by
+  have h := ((Closure.valid_iff _).mp hv).king b.stm
+  rw [hs.count_piece_color] at h
+  exact h
+
+theorem backed_ks_of_valid {b : Board} (hs : Struct b) (hv : Valid b.abs = true) :
+    b.myCastleRights.ks = true →
+      b.kingSquare b.stm = hsq b.stm 4 ∧ b.abs.board (hsq b.stm 7) = some (.rook, b.stm) := by
+  intro hr
+  have hK := (oneKing_of_valid hs hv).kingAt hs
+  obtain ⟨h4, h7⟩ := ((Closure.valid_iff _).mp hv).ck b.stm hr
+  rw [homeSq_4, Option.any_some] at h4
+  rw [homeSq_7, Option.any_some] at h7
+  unfold Pos.has at h4 h7
+  rw [beq_iff_eq] at h4 h7
+  exact ⟨((hK _).mp h4).symm, h7⟩
+
+theorem backed_qs_of_valid {b : Board} (hs : Struct b) (hv : Valid b.abs = true) :
+    b.myCastleRights.qs = true →
+      b.kingSquare b.stm = hsq b.stm 4 ∧ b.abs.board (hsq b.stm 0) = some (.rook, b.stm) := by
+  intro hr
+  have hK := (oneKing_of_valid hs hv).kingAt hs
+  obtain ⟨h4, h0⟩ := ((Closure.valid_iff _).mp hv).cq b.stm hr
+  rw [homeSq_4, Option.any_some] at h4
+  rw [homeSq_0, Option.any_some] at h0
+  unfold Pos.has at h4 h0
+  rw [beq_iff_eq] at h4 h0
+  exact ⟨((hK _).mp h4).symm, h0⟩
+
 end KingMoves
 end Chess
